@@ -3,7 +3,7 @@
 # Confirms in a scratch worktree (outside /repo and /verif): suite passes with the patch,
 # the demonstration fails with it and passes without it. Prints one RESULT line.
 set -uo pipefail
-SRC=$1; FILTER=$2; CRATE=${3:-teos}
+SRC=$1; FILTER=$2; CRATE=${3:-teos}; KIND=${4:---lib}
 BASE=${BASE:-a4a203b}
 WT=/tmp/seedverify/wt
 export CARGO_TARGET_DIR=/tmp/seedverify/target
@@ -12,10 +12,10 @@ if [ ! -d $WT ]; then git -C /repo worktree add -q --detach $WT $BASE; fi
 cd $WT && git checkout -q --detach $BASE && git checkout -q -- . && git clean -fdq -e target
 # 1. demo without patch
 git apply $SRC/demo.diff || { echo "RESULT $SRC demo.diff does not apply"; exit 1; }
-cargo test -p $CRATE --offline --lib "$FILTER" > /tmp/seedverify/demo_clean.log 2>&1; D0=$?
+cargo test -p $CRATE --offline $KIND "$FILTER" > /tmp/seedverify/demo_clean.log 2>&1; D0=$?
 # 2. demo with patch
 git apply $SRC/patch.diff || { echo "RESULT $SRC patch.diff does not apply on top of demo"; exit 1; }
-cargo test -p $CRATE --offline --lib "$FILTER" > /tmp/seedverify/demo_patched.log 2>&1; D1=$?
+cargo test -p $CRATE --offline $KIND "$FILTER" > /tmp/seedverify/demo_patched.log 2>&1; D1=$?
 # 3. suite with patch only
 git checkout -q -- . && git clean -fdq -e target && git apply $SRC/patch.diff
 cargo test --workspace --offline --no-fail-fast > /tmp/seedverify/suite.log 2>&1; S=$?
